@@ -888,7 +888,7 @@ POLICIES = ("on_t_sample", "on_interval", "on_iteration", "no_sampling")
 INTERVALS = (None, 0.25, "500 ms")                      # None = the default (1 in the script's time unit)
 TMAXS = (None, 1.5)                                     # None = "default" (last request)
 REQUESTS = ([0, 0.5, 1.0], [0.3, 0.31, 1.2], [0, 0.0625, 0.125, 0.25, 2.0])
-TIME_STEPS = (0.01, 0.125)
+TIME_STEPS = (0.05, 0.125)
 SCRIPT_UNITS = (("µm", "s", "molecule"), ("nm", "ms", "pmol"), ("mm", "ds", "mol"))
 SCRIPT_MAPS = {(3, 2, 1): [0, 1, 2, 2, -1, 1], (2, 2, 1): [0, 1, 1, -1]}     # valid for the 3- / 2-environment map
 
@@ -971,10 +971,17 @@ def _eval_script(case, cache):
             tp = _si_array(plain.t, (0, 1, 0), site, "plain-t")
             a = _si_array(plain.data, (0, 0, 1), site, "plain-data")
             claim_times = True
-            if kind != "euler":
-                # stochastic engines: the identity-map graph is the grid's graph, but grid and graph runs consume
-                # the random numbers in different orders, so data is not claimed; sample times / count are claimed
-                # only when they do not depend on the draws (same times for another seed of the plain run).
+            if kind == "gillespie":
+                # event-driven engine: the sample times are the times of random events, and the grid run and the
+                # graph run consume the random numbers in different orders -> neither data nor times nor the
+                # number of samples of the plain run are claimed (only "no_sampling" records nothing, always).
+                claim_times = pol == "no_sampling"
+                if not claim_times:
+                    info["times_random"] = 1
+            elif kind == "tauleap":
+                # fixed-step stochastic engine: data is not claimed (other order of draws on the graph), but the
+                # sample times are a function of the script alone; guarded: they are claimed only if the plain
+                # run with another seed has the same times.
                 plain2 = simulate_script(_mk_script(case, system, seed=case["seed"] + 1), engine)
                 info["transitions"] += 1
                 tp2 = _si_array(plain2.t, (0, 1, 0), site, "plain-t")
@@ -1122,7 +1129,7 @@ def _hist_spaces(T):
     return out
 
 
-def _script_spaces(T):
+def _script_spaces(T, seed=0):
     import itertools
     out = []
     grids = [((3, 2, 1), "three")] + ([((2, 2, 1), "two")] if T else [])
@@ -1130,7 +1137,7 @@ def _script_spaces(T):
         n = g[0] * g[1] * g[2]
         env = env_map(envname, n)
         base = {"sub": "script", "grid": list(g), "env": env, "chem": chem_rich(2, n), "nspecies": 2, "units": 0,
-                "seed": 1234}
+                "seed": 1234 + 1000 * int(seed)}
         maps = [list(range(n)), SCRIPT_MAPS[g]]
         reqs = (0, 1, 2) if T else (0, 1)
         cases = []
@@ -1152,13 +1159,13 @@ def _script_spaces(T):
             for m in maps:
                 cases.append(dict(base, engine=kind, sunits=su, policy=pol, interval=iv, tmax=tm, req=0, dt=0,
                                   init=ini, map=m))
-        out.append(_sp_list("script %dx%dx%d tauleap + gillespie (seed 1234): %d script unit systems x 4 sampling policies x "
+        out.append(_sp_list("script %dx%dx%d tauleap + gillespie (fixed seed): %d script unit systems x 4 sampling policies x "
                             "3 intervals x 2 t_max x init {auto, Poisson} x {identity, non-trivial map}" % (g + (len(sus),)),
                             "script", cases, engine=True))
     return out
 
 
-def _spaces(tier):
+def _spaces(tier, seed=0):
     T = tier == "thorough"
     E3N = ("uniform", "two", "three")
     sp = []
@@ -1181,13 +1188,13 @@ def _spaces(tier):
         sp.append(_sp("cg 3-D 2x2x2: all maps {-1..2}^8 x 3 environment maps", "cg", (2, 2, 2), _labels(2)))
     else:
         sp.append(_sp("cg 1-D 5 cells: all maps {-1..2}^5 x 3 environment maps", "cg", (5, 1, 1), _labels(2)))
-        sp.append(_sp("cg 1-D 6 cells: all maps {-1,0,1}^6 x 3 environment maps", "cg", (6, 1, 1), _labels(1)))
+        sp.append(_sp("cg 1-D 6 cells: all maps {-1,0,1}^6 x {uniform, 3 environments}", "cg", (6, 1, 1), _labels(1),
+                      envs=("uniform", "three")))
         sp.append(_sp("cg 2-D 2x2: all maps {-1..3}^4 x 3 environment maps", "cg", (2, 2, 1), _labels(3)))
         sp.append(_sp("cg 2-D 3x2: all maps {-1,0,1}^6 x 3 environment maps", "cg", (3, 2, 1), _labels(1)))
         sp.append(_sp("cg 2-D 3x2: all maps {0,1,2}^6, uniform environment", "cg", (3, 2, 1), [0, 1, 2], envs=("uniform",)))
         sp.append(_sp("cg 2-D 2x3: all maps {-1,0,1}^6, 3-environment map", "cg", (2, 3, 1), _labels(1), envs=("three",)))
-        sp.append(_sp("cg 2-D 3x3: all maps {0,1}^9 x {uniform, 2 environments}", "cg", (3, 3, 1), [0, 1],
-                      envs=("uniform", "two")))
+        sp.append(_sp("cg 2-D 3x3: all maps {0,1}^9, uniform environment", "cg", (3, 3, 1), [0, 1], envs=("uniform",)))
         sp.append(_sp("cg 3-D 2x2x2: all maps {0,1}^8 x 3 environment maps", "cg", (2, 2, 2), [0, 1]))
         sp.append(_sp("cg 3-D 2x2x2: all maps {-1,0}^8 x 3 environment maps", "cg", (2, 2, 2), _labels(0)))
         sp.append(_sp("cg 3-D 2x1x2: all maps {-1..3}^4 x 3 environment maps", "cg", (2, 1, 2), _labels(3)))
@@ -1213,9 +1220,9 @@ def _spaces(tier):
         sp.append(_sp("cg 1-D 2 cells, 2 species: all 16 chemostat maps x all maps {-1,0,1}^2 x 3 environment maps",
                       "cg", (2, 1, 1), _labels(1), chems="all", nspecies=2))
     # -- static: other unit systems -----------------------------------------------------------------------------
-    sp.append(_sp("cg 2-D 2x2: all maps {-1..3}^4 x 3 environment maps x 2 non-default unit configurations",
-                  "cg", (2, 2, 1), _labels(3), units=(1, 2)))
     if T:
+        sp.append(_sp("cg 2-D 2x2: all maps {-1..3}^4 x 3 environment maps x 2 non-default unit configurations",
+                      "cg", (2, 2, 1), _labels(3), units=(1, 2)))
         sp.append(_sp("cg 1-D 4 cells: all maps {-1..3}^4 x 3 environment maps x 2 non-default unit configurations",
                       "cg", (4, 1, 1), _labels(3), units=(1, 2)))
         sp.append(_sp("cg 2-D 3x2: all maps {-1..2}^6 x 3 environment maps x 2 non-default unit configurations",
@@ -1223,6 +1230,8 @@ def _spaces(tier):
         sp.append(_sp("cg 3-D 2x2x2: all maps {-1,0,1}^8, 3-environment map x 2 non-default unit configurations",
                       "cg", (2, 2, 2), _labels(1), envs=("three",), units=(1, 2)))
     else:
+        sp.append(_sp("cg 2-D 2x2: all maps {-1..3}^4, 3-environment map x 2 non-default unit configurations",
+                      "cg", (2, 2, 1), _labels(3), envs=("three",), units=(1, 2)))
         sp.append(_sp("cg 1-D 3 cells: all maps {-1..2}^3 x 3 environment maps x 2 non-default unit configurations",
                       "cg", (3, 1, 1), _labels(2), units=(1, 2)))
         sp.append(_sp("cg 3-D 2x2x2: all maps {-1,0}^8, 3-environment map x 2 non-default unit configurations",
@@ -1246,7 +1255,8 @@ def _spaces(tier):
         simf = [((3, 1, 1), 2, E3N, "none+rich"), ((2, 2, 1), 3, E3N, "none+rich"), ((3, 2, 1), 1, E3N, "rich"),
                 ((4, 1, 1), 3, E3N, "none+rich"), ((3, 2, 1), 2, E3N, "rich"), ((2, 2, 2), 1, ("two",), "rich")]
     else:
-        simf = [((3, 1, 1), 2, E3N, "none+rich"), ((2, 2, 1), 3, E3N, "rich"), ((3, 2, 1), 1, ("two",), "rich")]
+        simf = [((3, 1, 1), 2, E3N, "none+rich"), ((2, 2, 1), 3, ("two", "three"), "rich"),
+                ((3, 2, 1), 1, ("two",), "rich")]
     for g, mx, envs, chems in simf:
         n = g[0] * g[1] * g[2]
         sp.append(_sp("simcg %dx%dx%d: Euler with cgmap, valid maps among {-1..%d}^%d x environment maps %s x chemostats {%s}"
@@ -1273,7 +1283,7 @@ def _spaces(tier):
                           % g, "ident", g, None, envs=("uniform",), chems="none+rich", units=(0, 1, 2), engine=True))
     # -- process histories, script alphabet ---------------------------------------------------------------------
     sp += _hist_spaces(T)
-    sp += _script_spaces(T)
+    sp += _script_spaces(T, seed)
     return sp
 
 
@@ -1333,7 +1343,7 @@ def _work(job):
 def run(ctx):
     global _SPACES
     cg.selftest()
-    _SPACES = _spaces(ctx.tier)
+    _SPACES = _spaces(ctx.tier, ctx.seed)
     if any(sp["engine"] for sp in _SPACES):
         try:
             _engine()                   # build + load once in the parent; the forked workers inherit it
